@@ -1779,7 +1779,34 @@ def check_own_actor_guard(u):
     return [name], failures, samples
 
 
-CHECKS = {"own_actor_guard": check_own_actor_guard, "loops_unfiltered": check_loops_unfiltered, "lagged_arm_returns": check_lagged_arm_returns, "apply_trigger_waits": check_apply_trigger_waits, "last_id_published": check_last_id_published, "sub_select_only": check_sub_select_only, "broadcast_delivery": check_broadcast_delivery, "updates_row_binding": check_updates_row_binding, "row_bindings": check_row_bindings, "feeds_fed": check_feeds_fed, "exists_binding": check_exists_binding, "seqmerge_params": check_seqmerge_params, "chunker_ranges": check_chunker_ranges, "persist_before_publish": check_persist_before_publish, "schema_reload": check_schema_reload, "cluster_id_fresh": check_cluster_id_fresh, "schema_ddl": check_schema_ddl, "schema_atomic": check_schema_atomic, "seq_range_guard": check_seq_range_guard, "exits_covered": check_exits_covered, "sub_lag_stops": check_sub_lag_stops, "single_snapshot": check_single_snapshot, "offer_loops": check_offer_loops, "speedy_prealloc": check_speedy_prealloc, "from_conn": check_from_conn, "sql_actor_scoping": check_sql_actor_scoping, "local_write_sequence": check_local_write_sequence, "insert_local_changes": check_insert_local_changes, "authz_layer": check_authz_layer, "readonly_guard": check_readonly_guard, "read_pool": check_read_pool}
+def check_loop_runs_to_end(u):
+    """C15: apply_schema treats every table present in both schemas in one pass of one loop body: drop / change / primary-key rules, new
+    columns, then the index comparison.  The rules are under contract as fragments; that a table which passed the first ones also REACHES
+    the later ones is this obligation: the loop body is left before its end only by `return Err(..)` / `?` — no `continue`, no `break`, no
+    `return Ok` at the level of that loop."""
+    file = u["file"]
+    src, msk, o, c = _fn_body(file, u["fn"], u.get("impl"))
+    loops = []
+    for m in re.finditer(r"\b(for\b[^{;]*?\bin\b[^{;]*?|while\b[^{;]*?|loop\s*)\{", msk[o:c]):
+        ob = o + m.end() - 1
+        loops.append((o + m.start(), ob, match_delim(msk, ob), re.sub(r"\s+", " ", src[o + m.start():ob]).strip()))
+    target = [l for l in loops if re.search(u["header"], l[3])]
+    if len(target) != 1:
+        raise LostAnchor("%s: expected exactly one loop matching /%s/, found %s" % (u["fn"], u["header"], [l[3][:60] for l in target]))
+    ls, ob, cb, hdr = target[0]
+    name = u.get("obligation", "every-element-reaches-the-end-of-the-loop-body")
+    failures = []
+    for bm in re.finditer(r"\b(continue|break)\b", msk[ob:cb]):
+        pos = ob + bm.start()
+        inner = max((l for l in loops if l[1] < pos < l[2]), key=lambda l: l[1])
+        if inner[1] == ob:
+            failures.append((name, _line(src, pos), "`%s` leaves the body of `%s …` early: what follows it in the body (for apply_schema: the index comparison) is skipped for this element" % (bm.group(1), hdr[:50])))
+    for rm in re.finditer(r"\breturn\s+Ok\b", msk[ob:cb]):
+        failures.append((name, _line(src, ob + rm.start()), "`return Ok` inside the loop"))
+    return [name], failures, ["%s:%d `%s {…}`: left early only by return Err / ?" % (file, _line(src, ls), hdr[:80])]
+
+
+CHECKS = {"loop_runs_to_end": check_loop_runs_to_end, "own_actor_guard": check_own_actor_guard, "loops_unfiltered": check_loops_unfiltered, "lagged_arm_returns": check_lagged_arm_returns, "apply_trigger_waits": check_apply_trigger_waits, "last_id_published": check_last_id_published, "sub_select_only": check_sub_select_only, "broadcast_delivery": check_broadcast_delivery, "updates_row_binding": check_updates_row_binding, "row_bindings": check_row_bindings, "feeds_fed": check_feeds_fed, "exists_binding": check_exists_binding, "seqmerge_params": check_seqmerge_params, "chunker_ranges": check_chunker_ranges, "persist_before_publish": check_persist_before_publish, "schema_reload": check_schema_reload, "cluster_id_fresh": check_cluster_id_fresh, "schema_ddl": check_schema_ddl, "schema_atomic": check_schema_atomic, "seq_range_guard": check_seq_range_guard, "exits_covered": check_exits_covered, "sub_lag_stops": check_sub_lag_stops, "single_snapshot": check_single_snapshot, "offer_loops": check_offer_loops, "speedy_prealloc": check_speedy_prealloc, "from_conn": check_from_conn, "sql_actor_scoping": check_sql_actor_scoping, "local_write_sequence": check_local_write_sequence, "insert_local_changes": check_insert_local_changes, "authz_layer": check_authz_layer, "readonly_guard": check_readonly_guard, "read_pool": check_read_pool}
 
 
 def run_unit(prop, u, tier, ctx, here):
